@@ -1150,6 +1150,10 @@ class OdeSystem(object):
         except KeyboardInterrupt as e:
             self.__int_status = e
             raise e
+        except etypes.FailedIntegration as e:
+            # raised by the nested call that re-takes a step up to a terminal event: it already carries the original cause
+            self.__int_status = e
+            raise
         except Exception as e:
             new_e = etypes.FailedIntegration("Failed to integrate system")
             new_e.__cause__ = e
